@@ -426,7 +426,63 @@ fn worker_dirs(w: &mut WorkerCtx) {
             }
             std::env::remove_var(var);
         }
+        // foreign variables: nothing outside HOME / XDG_* / PATH may influence any of the nine functions
+        // (the statement fixes the fallbacks, e.g. runtime_dir -> /tmp, not "the system's temporary directory")
+        for base in [0u64, sp.n() - 1] {
+            let cfg = sp.config(base);
+            // (HOME and XDG_CONFIG_HOME stay as the explicit process environment of this group has them)
+            for (k, v) in cfg.iter().skip(2) {
+                set_opt(k, v);
+            }
+            for (fk, fv) in FOREIGN {
+                j += 1;
+                if !w.mine(j) {
+                    continue;
+                }
+                TICK.fetch_add(1, Ordering::Relaxed);
+                let before = eval_dirs();
+                std::env::set_var(fk, fv);
+                let e = eval_dirs();
+                std::env::remove_var(fk);
+                w.count("dirs_foreign_configs", 1);
+                w.count("dirs_calls", e.calls + before.calls);
+                w.count("dirs_nontrivial", 1);
+                if e.outcome != before.outcome {
+                    let detail = format!("with {}={:?} added to the environment the results change: before {} / after {}", fk, fv, before.outcome, e.outcome);
+                    w.vio(&format!("user::* depends on foreign variable {}", fk), || detail, || J::obj([("part", J::s("dirs")), ("env", dirs_env_json_with(fk, fv))]));
+                }
+                for (sig, detail) in e.findings {
+                    w.vio(&sig, || detail, || J::obj([("part", J::s("dirs")), ("env", dirs_env_json_with(fk, fv))]));
+                }
+            }
+        }
+        for (k, v) in cfg0.iter().skip(2) {
+            set_opt(k, v);
+        }
     }
+}
+
+/// variables other programs consult for similar purposes; none of them is named by the statement
+const FOREIGN: [(&str, &str); 10] = [
+    ("TMPDIR", "/var/tmp/foreign"),
+    ("TMP", "/var/tmp/foreign"),
+    ("TEMP", "/var/tmp/foreign"),
+    ("USER", "foreign"),
+    ("LOGNAME", "foreign"),
+    ("USERPROFILE", "/foreign"),
+    ("APPDATA", "/foreign"),
+    ("XDG_BIN_HOME", "/foreign"),
+    ("XDG_DATA_HOME_DIRS", "/foreign"),
+    ("SUDO_USER", "foreign"),
+];
+
+fn dirs_env_json_with(k: &str, v: &str) -> J {
+    let mut o = match dirs_env_json() {
+        J::Obj(x) => x,
+        _ => vec![],
+    };
+    o.push((k.to_string(), J::s(v)));
+    J::Obj(o)
 }
 
 const LIST_SHAPE_LEN: usize = 4;
@@ -1056,7 +1112,7 @@ pub fn run(ctx: &Ctx) -> i32 {
     let cfg_expected = (0..CFG_N).filter(|i| cfg_case(*i).is_some()).count() as u64;
     let rids_expected = (SUDO_UIDS.len() * SUDO_GIDS.len() * UIDS.len() * GIDS.len()) as u64;
     let shapes_expected = LISTS.iter().map(|(_, p, q)| list_shapes(p, q).len() as u64).sum::<u64>();
-    for (k, want) in [("dirs_configs", sp.n()), ("dirs_shape_configs", shapes_expected), ("cfg_cases", cfg_expected), ("rids_cases", rids_expected)] {
+    for (k, want) in [("dirs_configs", sp.n()), ("dirs_shape_configs", shapes_expected), ("dirs_foreign_configs", 2 * FOREIGN.len() as u64), ("cfg_cases", cfg_expected), ("rids_cases", rids_expected)] {
         if total.c(k) != want {
             machinery_errors.push(format!("{} = {} but {} expected", k, total.c(k), want));
         }
@@ -1089,7 +1145,7 @@ pub fn run(ctx: &Ctx) -> i32 {
         (
             "bounds",
             J::s(format!(
-                "dirs: {:?} each in forms {:?} of {{0 unset, 1 \"\", 2 '/x<tag>', 3 'rel/x<tag>/'}} x {:?} each in list forms {:?} of {{0 unset, 1 \"\", 2 'p', 3 'p:q', 4 ':p::q:', 5 'relp:q/', 6 '::'}} = {} configurations + each list variable alone over every list of 1..=4 segments from {{\"\", p, p/, q, /}} (adjacent repeats, trailing separators, root); config_dir: backend {{Memfs, Stdfs}} x HOME x XDG_CONFIG_HOME {{unset, \"\", value}} x XDG_CONFIG_DIRS (6 forms incl. one that repeats the user directory) x every subset of [XDG_CONFIG_HOME dir, HOME/.config, cp, cq, /etc/xdg] holding the file (/etc/xdg only on Memfs), decoy directories of XDG_DATA_HOME, XDG_DATA_DIRS, XDG_CACHE_HOME always hold it; getrids: uid {:?} x gid {:?} x SUDO_UID {:?} x SUDO_GID {:?}",
+                "dirs: {:?} each in forms {:?} of {{0 unset, 1 \"\", 2 '/x<tag>', 3 'rel/x<tag>/'}} x {:?} each in list forms {:?} of {{0 unset, 1 \"\", 2 'p', 3 'p:q', 4 ':p::q:', 5 'relp:q/', 6 '::'}} = {} configurations + each list variable alone over every list of 1..=4 segments from {{\"\", p, p/, q, /}} (adjacent repeats, trailing separators, root) + 10 foreign variables (TMPDIR, TMP, USER, ...) each added to the all-unset configuration and to the one with every other variable set: no result may change; config_dir: backend {{Memfs, Stdfs}} x HOME x XDG_CONFIG_HOME {{unset, \"\", value}} x XDG_CONFIG_DIRS (6 forms incl. one that repeats the user directory) x every subset of [XDG_CONFIG_HOME dir, HOME/.config, cp, cq, /etc/xdg] holding the file (/etc/xdg only on Memfs), decoy directories of XDG_DATA_HOME, XDG_DATA_DIRS, XDG_CACHE_HOME always hold it; getrids: uid {:?} x gid {:?} x SUDO_UID {:?} x SUDO_GID {:?}",
                 SINGLE.iter().map(|x| x.0).collect::<Vec<_>>(),
                 sp.singles,
                 LISTS.iter().map(|x| x.0).collect::<Vec<_>>(),
